@@ -74,6 +74,7 @@ enum CallResp {
 #[derive(Clone, Debug, Default)]
 struct Policy {
     fail_at: Option<(usize, usize)>,
+    fail_once: bool,
     zero_at: Option<usize>,
     cap: Option<usize>,
     intr: Vec<usize>,
@@ -138,7 +139,12 @@ impl Write for TestSink {
             return Err(io::Error::new(io::ErrorKind::Interrupted, "scripted"));
         }
         if let Some((k, kind)) = st.policy.fail_at {
-            if k == off {
+            // `failonce`: the fault strikes the first time the offset is reached, then clears
+            let spent = st.policy.fail_once && st.fired.contains(&(usize::MAX - k));
+            if k == off && !spent {
+                if st.policy.fail_once {
+                    st.fired.insert(usize::MAX - k);
+                }
                 return Err(io::Error::new(error_kind(kind), "scripted failure"));
             }
         }
@@ -155,7 +161,9 @@ impl Write for TestSink {
             }
         };
         if let Some((k, _)) = st.policy.fail_at {
-            stop(k);
+            if !(st.policy.fail_once && st.fired.contains(&(usize::MAX - k))) {
+                stop(k);
+            }
         }
         if let Some(k) = st.policy.zero_at {
             stop(k);
@@ -181,6 +189,10 @@ fn parse_policy(s: &str) -> Policy {
         let f: Vec<&str> = part.split(':').collect();
         match f[0] {
             "failat" => p.fail_at = Some((f[1].parse().unwrap(), f[2].parse().unwrap())),
+            "failonce" => {
+                p.fail_at = Some((f[1].parse().unwrap(), f[2].parse().unwrap()));
+                p.fail_once = true;
+            }
             "zeroat" => p.zero_at = Some(f[1].parse().unwrap()),
             "cap" => p.cap = Some(f[1].parse().unwrap()),
             "intr" => p.intr = f[1].split(',').filter(|x| !x.is_empty()).map(|x| x.parse().unwrap()).collect(),
